@@ -145,7 +145,9 @@ pub fn run_case(prop: &str, tapes: &mut Tapes) -> Result<CaseResult, HarnessErro
         return crate::introspect::case_c20(tapes);
     }
     let bias = prop == "C22";
-    let w = match build_workload(tapes, bias) {
+    // C04 and C05 live on tags: bias half of their cases toward many tags and tag operands.
+    let bias_tags = matches!(prop, "C04" | "C05") && tapes.query.draw(2) == 1;
+    let w = match crate::runner::build_workload_biased(tapes, bias, bias_tags) {
         Ok(w) => w,
         Err(BuildError::SchemaRejected(text, err)) => {
             return Err(HarnessError(format!(
